@@ -169,6 +169,9 @@ def r3_trivia(c, facts):
 
 
 def run(c, facts):
+    import c10
+    R6 = c.rule('C05.R6', 'JOIN-AGREE: a declaration moved into a module is found again: an import binds to the module that was loaded for it (shared with C10.R5)')
+    c.shared(R6, c10.r5_join_agree, 'C10.R5', facts)
     c.run(r1_transparent, facts)
     R2 = c.rule('C05.R2', 'ORDER-FREE: declarations are tagged and declared before any traversal')
     c.run(lambda c: I.pre_tag(c, facts, R2))
